@@ -1,7 +1,8 @@
 /* Correspondence driver for the raw-array sorts / search / find / reverse of
  * src/array.c, called directly and through src/vector.c (C11).
  *
- * Script (see runner/run_sort.ml): header "esize s", "arr k...", "vcap x";
+ * Script (see runner/run_sort.ml): header "esize s", "arr k...", "vcap x",
+ * "cmpmode m" (magnitude of the comparison results, ignored by the model);
  * every operation runs on a fresh copy of the header array.
  *
  * Element layout (esize bytes): byte 0 = key; last byte = tag & 0xff;
@@ -54,13 +55,25 @@ static long long idx_of(const void * p)
     return -9;
 }
 
+/* "cmpmode k": what the comparison callback returns besides the sign, which
+ * is all the contract of cstl_compare_func_t fixes: 0 = -1/0/1, 1 = the
+ * difference of the keys, 2 = the sign times a magnitude that changes from
+ * call to call */
+static int g_cmpmode = 1;
+static unsigned long g_cmpcalls;
 static int cmp_cb(const void * a, const void * b, void * priv)
 {
     const long long i = idx_of(a), j = idx_of(b);
+    const int d = (int)*(const unsigned char *)a - (int)*(const unsigned char *)b;
+    const int sg = (d > 0) - (d < 0);
     (void)priv;
     if (i == -1) logev(2, j, 0); else logev(0, i, j);
-    /* only the sign is meaningful */
-    return ((int)*(const unsigned char *)a - (int)*(const unsigned char *)b) * 3;
+    g_cmpcalls++;
+    switch (g_cmpmode) {
+    case 0: return sg;
+    case 2: return sg * (int)(1 + (g_cmpcalls * 7) % 13);
+    default: return d;
+    }
 }
 
 static void swap_cb(void * a, void * b, void * t, size_t len)
@@ -210,7 +223,7 @@ static void run_case(const struct h_case * c)
     size_t es = 4, vcap = 0;
     int i, k;
 
-    nkeys = 0;
+    nkeys = 0; g_cmpmode = 1; g_cmpcalls = 0;
     for (i = 0; i < c->nlines; i++) {
         const struct h_line * l = &c->lines[i];
         const char * op = l->w[0];
@@ -222,6 +235,7 @@ static void run_case(const struct h_case * c)
 
         if (h_weq(l, 0, "esize")) { es = (size_t)h_u64(l, 1); continue; }
         if (h_weq(l, 0, "vcap")) { vcap = (size_t)h_u64(l, 1); continue; }
+        if (h_weq(l, 0, "cmpmode")) { g_cmpmode = (int)h_int(l, 1); continue; }
         if (h_weq(l, 0, "arr")) {
             for (k = 1; k < l->nw; k++) {
                 if (nkeys == keys_cap) {
